@@ -2156,10 +2156,9 @@ def _set(
             if isinstance(value, dict):
                 if _is_tensor_collection(target_cls):
                     cast_val = target_cls.from_dict(value, auto_batch_size=False)
-                    self._tensordict.set(
-                        key, cast_val, inplace=inplace, non_blocking=non_blocking
-                    )
-                    return self
+                    # go through set_tensor: a None placeholder left in
+                    # _non_tensordict would shadow the new entry on read
+                    return set_tensor(value=cast_val)
                 elif type_hints is None:
                     warnings.warn(type(self)._set_dict_warn_msg)
             elif value is not None and issubclass(
